@@ -123,6 +123,24 @@ func liftDoc(classes []string, pick func(i int, alts []byte) byte, stretch int, 
 	return b
 }
 
+// inStringAfter: whether a class sequence ends inside a string
+func inStringAfter(classes []string) bool {
+	inStr, esc := false, false
+	for _, c := range classes {
+		switch {
+		case !inStr:
+			inStr = c == "\""
+		case esc:
+			esc = false
+		case c == "\\":
+			esc = true
+		case c == "\"":
+			inStr = false
+		}
+	}
+	return inStr
+}
+
 type marshalerOf struct{ b []byte }
 
 func (m marshalerOf) MarshalJSON() ([]byte, error) { return m.b, nil }
@@ -396,6 +414,38 @@ func c05Vector(c *Ctx, raw stdjson.RawMessage) {
 				continue
 			}
 			c05Check(c, w.name, w.accepts, wd, want, tag, "wrap="+w.wrap)
+		}
+	}
+	// 1a'. white space is scanned in runs: each white space position of an accepted document widened to a run of
+	// 8 .. 17 equal bytes stays accepted, and the same run with one byte that is no white space inside it (NUL, another
+	// control byte, 0xa0, DEL) - at the front, in the middle of a word, at its end - is rejected
+	if v.A {
+		for i, cl := range v.D {
+			if cl != "S" && cl != "W" {
+				continue
+			}
+			n := 8 + r.intn(10)
+			pre := liftDoc(v.D[:i], nil, 0, 'x')
+			post := liftDoc(v.D[i+1:], nil, 0, 'x')
+			if inStringAfter(v.D[:i]) {
+				continue // a blank inside a string is content, not white space
+			}
+			ws := classBytes[cl][r.intn(len(classBytes[cl]))]
+			run := bytes.Repeat([]byte{ws}, n)
+			good := append(append(append([]byte(nil), pre...), run...), post...)
+			c.Case()
+			c05All(c, good, true, true, tag, "ws-run")
+			for _, at := range []int{0, 1, 3, 7, 8, n - 1} {
+				if at >= n {
+					continue
+				}
+				for _, bad := range []byte{0x00, 0x01, 0x0b, 0x0c, 0x1f, 0x7f, 0xa0} {
+					d := append([]byte(nil), good...)
+					d[len(pre)+at] = bad
+					c05All(c, d, false, at == 3 && bad == 0, tag, "ws-run-poisoned")
+				}
+			}
+			break // one white space position per document
 		}
 	}
 	// 1b. a killing class inserted inside a complete document, the rest of the document following: not JSON
